@@ -1251,6 +1251,12 @@ class Interp(object):
         if len(arms) == 1 and arms[0][0] == 0:
             f_tgt, t_tgt = arms[0][1], t["otherwise"]
             cond_true = d
+            if isinstance(d, W) and d.width != 1 and d.val is None:
+                # `match x { 0 => .., _ => .. }` on a symbolic integer: the condition is "x != 0", a Boolean - not
+                # the word itself (whose bitwise complement is not its negation)
+                cond_true = self.binop("Ne", d, W(d.width, val=0, signed=d.signed), fr)
+                ck = self.cond_kind(cond_true)
+                d = cond_true
         else:
             raise Undecided("symbolic multi-way switch in %s" % fr.fn_path)
         join = fr.ipdom[bb]
@@ -1457,6 +1463,14 @@ class Interp(object):
                     clos = args[0]
                     tup = args[1]
                     return self.call_mir(body, body["mir"], [clos] + list(tup.fields), st, dict(fr.env), fr.depth + 1, pc)
+                # the type parameter is not bound in the environment: dispatch on the callee *value* (a closure or a
+                # function item handed down as `impl Fn..`)
+                clos = args[0]
+                while isinstance(clos, Ptr):
+                    clos = self.read_ptr(st, clos)
+                if isinstance(args[1], Agg) and ((isinstance(clos, Agg) and clos.kind == "closure") or (isinstance(clos, Opaque) and clos.kind == "fndef")):
+                    from .stdmodel import call_closure as _cc
+                    return _cc(self, fr, st, pc, clos, list(args[1].fields))
             raise Undecided("unresolved call %s in %s" % (fn["path"], fr.fn_path))
         # external: std model
         self.summaries_used.add(path)
